@@ -222,8 +222,8 @@ _NORM_JOB = None
 
 
 def _norm_one(i):
-    reqs, resps = _NORM_JOB
-    return vlib.static_record("r%d" % i, reqs[i], resps[i])
+    reqs, resps, base = _NORM_JOB
+    return vlib.static_record("r%d" % (base + i), reqs[i], resps[i])
 
 
 def spec_hash():
@@ -255,70 +255,86 @@ def run(seed, tier, extra_cases=None, use_cache=True):
     else:
         mc, mstats = model_cases(tier)          # TLC first (never concurrently with cargo / the driver pool)
         cs = cases(seed, tier) + mc
-    reqs = []
-    for i, c in enumerate(cs):
-        rq = {"id": str(i), "code": c["code"], "file": c.get("file", "/w/src/test.js"),
-              "config": c["config"], "want": [] if c.get("mode") == "total" else WANT}
-        if "reader" in c:
-            rq["reader"] = c["reader"]
-        reqs.append(rq)
-    resps = vlib.run_requests(reqs, nproc=vlib.NCPU)
-    t1 = time.time()
-    if any((r or {}).get("outcome") == "bad_request" for r in resps):
-        raise vlib.ToolError("the driver could not decode a request (harness bug, not an observation)")
-    recs = []
-    bycase = {}
-    outcomes = {}
-    v8jobs = []
-    # normalisation of the recorded trees is the Python-side bottleneck: spread it over the cores
+    # cases are processed in batches (driver -> normalise -> V8 -> ND-JSON chunk files on disk): a thorough run has
+    # ~100 000 cases and the recorded trees of all of them do not have to be in memory at once
     import multiprocessing as mp
     global _NORM_JOB
-    _NORM_JOB = (reqs, resps)
-    if len(cs) > 400:
-        with mp.get_context("fork").Pool(min(vlib.NCPU, 16)) as pool:
-            allrecs = pool.map(_norm_one, range(len(cs)), chunksize=64)
-    else:
-        allrecs = [_norm_one(i) for i in range(len(cs))]
-    # the recorded swc trees are only needed for normalisation: let go of them (thorough runs hold ~100 000 responses)
-    _NORM_JOB = None
-    for rs in resps:
-        for k in ("in_ast", "out_ast", "events", "out_comments", "raw"):
-            if isinstance(rs, dict):
-                rs.pop(k, None)
-    for i, (c, rq, rs) in enumerate(zip(cs, reqs, resps)):
-        rid = "r%d" % i
-        outcomes[rs.get("outcome", "abort")] = outcomes.get(rs.get("outcome", "abort"), 0) + 1
-        bycase[rid] = {"name": c["name"], "code": c["code"], "config": c["config"], "file": rq["file"],
-                       "reader": c.get("reader"), "outcome": rs.get("outcome"),
-                       "error": rs.get("error"), "content": rs.get("content"), "metrics": rs.get("metrics")}
-        rec = allrecs[i]
-        recs.append(rec)
-        if "cfg" in rec:
-            bycase[rid]["eff"] = rec["cfg"]
-        if "gen" in c and rec.get("outcome") == "ok" and "in" in rec:
-            rec["gen"] = norm.encode(add_fields(c["gen"]))
-            rec["has_gen"] = True
-        elif "in" in rec:
-            rec["has_gen"] = False
-        if rec.get("status") == "modified":
-            kind = "module" if rec["kind_in"] == "Module" else "script"
-            v8jobs.append({"id": rid + "/in", "kind": kind, "code": c["code"]})
-            v8jobs.append({"id": rid + "/out", "kind": kind, "code": rs.get("content", "")})
-    t2 = time.time()
-    v8 = vlib.run_node_jobs("syntax.js", v8jobs)
-    for rec in recs:
-        if rec.get("status") == "modified":
-            a, b = v8.get(rec["rid"] + "/in"), v8.get(rec["rid"] + "/out")
-            rec["v8_in"] = "skip" if a is None else ("ok" if a["ok"] else "err")
-            rec["v8_out"] = "skip" if b is None else ("ok" if b["ok"] else "err")
-            if b is not None and not b["ok"]:
-                bycase[rec["rid"]]["v8_error"] = b["error"]
+    os.makedirs(vlib.WORK, exist_ok=True)
+    nchunks = max(1, min(vlib.NCPU, len(cs) // 150))
+    paths = [os.path.join(vlib.WORK, "trace-static-%d-%d.ndjson" % (os.getpid(), k)) for k in range(nchunks)]
+    files = [open(pth, "w") for pth in paths]
+    bycase = {}
+    outcomes = {}
+    nrecs = nv8 = 0
+    td = tn = tv = 0.0
+    BATCH = 12000
+    for b0 in range(0, len(cs), BATCH):
+        bcs = cs[b0:b0 + BATCH]
+        ta = time.time()
+        reqs = []
+        for i, c in enumerate(bcs):
+            rq = {"id": str(b0 + i), "code": c["code"], "file": c.get("file", "/w/src/test.js"),
+                  "config": c["config"], "want": [] if c.get("mode") == "total" else WANT}
+            if "reader" in c:
+                rq["reader"] = c["reader"]
+            reqs.append(rq)
+        resps = vlib.run_requests(reqs, nproc=vlib.NCPU)
+        tb = time.time()
+        if any((r or {}).get("outcome") == "bad_request" for r in resps):
+            raise vlib.ToolError("the driver could not decode a request (harness bug, not an observation)")
+        # normalisation of the recorded trees is the Python-side bottleneck: spread it over the cores
+        _NORM_JOB = (reqs, resps, b0)
+        if len(bcs) > 400:
+            with mp.get_context("fork").Pool(min(vlib.NCPU, 16)) as pool:
+                allrecs = pool.map(_norm_one, range(len(bcs)), chunksize=64)
+        else:
+            allrecs = [_norm_one(i) for i in range(len(bcs))]
+        _NORM_JOB = None
+        recs = []
+        v8jobs = []
+        for i, (c, rq, rs) in enumerate(zip(bcs, reqs, resps)):
+            rid = "r%d" % (b0 + i)
+            outcomes[rs.get("outcome", "abort")] = outcomes.get(rs.get("outcome", "abort"), 0) + 1
+            bycase[rid] = {"name": c["name"], "code": c["code"], "config": c["config"], "file": rq["file"],
+                           "reader": c.get("reader"), "outcome": rs.get("outcome"),
+                           "error": rs.get("error"), "content": rs.get("content"), "metrics": rs.get("metrics")}
+            rec = allrecs[i]
+            recs.append(rec)
+            if "cfg" in rec:
+                bycase[rid]["eff"] = rec["cfg"]
+            if "gen" in c and rec.get("outcome") == "ok" and "in" in rec:
+                rec["gen"] = norm.encode(add_fields(c["gen"]))
+                rec["has_gen"] = True
+            elif "in" in rec:
+                rec["has_gen"] = False
+            if rec.get("status") == "modified":
+                kind = "module" if rec["kind_in"] == "Module" else "script"
+                v8jobs.append({"id": rid + "/in", "kind": kind, "code": c["code"]})
+                v8jobs.append({"id": rid + "/out", "kind": kind, "code": rs.get("content", "")})
+        tc = time.time()
+        v8 = vlib.run_node_jobs("syntax.js", v8jobs)
+        for rec in recs:
+            if rec.get("status") == "modified":
+                a, b = v8.get(rec["rid"] + "/in"), v8.get(rec["rid"] + "/out")
+                rec["v8_in"] = "skip" if a is None else ("ok" if a["ok"] else "err")
+                rec["v8_out"] = "skip" if b is None else ("ok" if b["ok"] else "err")
+                if b is not None and not b["ok"]:
+                    bycase[rec["rid"]]["v8_error"] = b["error"]
+        for k, rec in enumerate(recs):
+            files[(nrecs + k) % nchunks].write(json.dumps(rec, ensure_ascii=True) + "\n")
+        nrecs += len(recs)
+        nv8 += len(v8jobs)
+        te = time.time()
+        td, tn, tv = td + (tb - ta), tn + (tc - tb), tv + (te - tc)
+        del reqs, resps, allrecs, recs, v8, v8jobs
+    for f in files:
+        f.close()
     t3 = time.time()
     vlib.log("static pipeline: %d cases (outcomes %s); driver %.1fs normalise %.1fs v8 %.1fs (%d compiles)" %
-             (len(cs), outcomes, t1 - t0, t2 - t1, t3 - t2, len(v8jobs)))
-    verdicts, st = vlib.validate_trace("TraceStatic", "TraceStatic.cfg", recs, "static")
+             (len(cs), outcomes, td, tn, tv, nv8))
+    verdicts, st = vlib.validate_trace_files("TraceStatic", "TraceStatic.cfg", paths, "static")
     t4 = time.time()
-    vlib.log("static pipeline: TLC validated %d records in %.1fs" % (len(recs), t4 - t3))
+    vlib.log("static pipeline: TLC validated %d records in %.1fs" % (nrecs, t4 - t3))
     byprop = {}
     for rid, prop, v, detail in verdicts:
         byprop.setdefault(prop, []).append((rid, v, detail))
@@ -327,8 +343,8 @@ def run(seed, tier, extra_cases=None, use_cache=True):
         raise vlib.ToolError("pipeline self-check failed: a TLC-enumerated tree does not parse back from its printed text: %s | %s"
                              % (bad0[0][1][:200], bycase[bad0[0][0]]["code"][:200]))
     res = {"verdicts": byprop, "cases": bycase, "stats": {
-        "cases": len(cs), "records": len(recs), "outcomes": outcomes, "tlc_states": st["states"],
-        "tlc_distinct": st["distinct"], "v8_compiles": len(v8jobs), "wall": t4 - t0, "models": mstats}}
+        "cases": len(cs), "records": nrecs, "outcomes": outcomes, "tlc_states": st["states"],
+        "tlc_distinct": st["distinct"], "v8_compiles": nv8, "wall": t4 - t0, "models": mstats}}
     if extra_cases is None:
         os.makedirs(vlib.WORK, exist_ok=True)
         json.dump(res, open(cache, "w"))
